@@ -30,6 +30,7 @@ fn build_suite(name: &str, params: &Value) -> Box<dyn Suite + Send + Sync> {
         "seeds" => Box::new(Seeds { seeds: load_seeds(&seeds_path) }),
         "truncations" => Box::new(Truncations::new(load_seeds(&seeds_path), params["stride"].as_u64().unwrap_or(1) as usize)),
         "splices" => Box::new(Splices { seeds: load_seeds(&seeds_path), count: params["count"].as_u64().unwrap(), seed: params["seed"].as_u64().unwrap_or(0) }),
+        "scaled" => Box::new(Scaled { max_k: params["max_k"].as_u64().unwrap_or(40) as u32 }),
         "grid" => {
             let nums = |v: &Value| -> Vec<usize> { v.as_array().map(|a| a.iter().map(|x| x.as_u64().unwrap() as usize).collect()).unwrap_or_default() };
             Box::new(Grid { kinds: strs(&params["kinds"]), lens: nums(&params["lens"]), rems: nums(&params["rems"]), offsets: nums(&params["offsets"]), delims: strs(&params["delims"]), tails: strs(&params["tails"]) })
@@ -205,6 +206,7 @@ fn main() {
             let mut out = std::io::BufWriter::new(std::fs::File::create(&args[4]).expect("out file"));
             let (n, bad) = match args[2].as_str() {
                 "lex" => replay::replay_lex(&args[3], &mut out),
+                "passes" => replay::replay_passes(&args[3], &mut out),
                 k => panic!("unknown replay kind {k}"),
             };
             let _ = out.flush();
